@@ -5,7 +5,7 @@ from ..kinds import BOOL, SCALAR, UNKNOWN, Kinds
 from ..model import AnalysisError
 from ..norm import Normalizer, show_term
 from ..vgraph import FALSE, NONE, TRUE, Closure, Ctx, show, walk
-from .util import POS, elementwise, fields, live, one
+from .util import POS, elementwise, entails, fields, live, one
 
 EXPLANATION = (
     "Per space kind (Box, Discrete, MultiBinary, MultiDiscrete, Dict, Tuple), on every static path of the method: C14.1 contains "
@@ -114,18 +114,11 @@ def check(s):
                      necessary_for="a Dict value whose keys come in another order than the space's is judged key by key (Gymnasium sorts keys); components are never cross-paired")
         # C14.3 ------------------------------------------------------
         for gname, gexpr in GUARDS[cls]:
-            want = nz.canon(s.ref(b, gexpr, bind))
-            wantneg = nz.boolean(("un", "Not", s.ref(b, gexpr, bind)))
-            hit = False
-            for p in reject:
-                if not p.conds:
-                    continue
-                t, v = p.conds[-1]
-                ct = nz.canon(t)
-                if (ct == want and v) or (ct == wantneg and not v):
-                    hit = True
-            s.ob("C14.3", f"{con}.{gname}", hit, f"a path rejects when `{gexpr}`", loc, key=f"guard-{gname}",
-                 detail="; ".join(f"{show(p.conds[-1][0], maxlen=80)}={p.conds[-1][1]}" for p in reject if p.conds),
+            # the single accepting path is reachable only when the guard is false (whatever the spelling, nesting or merging of the tests);
+            # every other path returns False (accepting-paths), so a value the guard describes is rejected
+            hit = entails(nz, pa.conds, s.ref(b, gexpr, bind)) is False
+            s.ob("C14.3", f"{con}.{gname}", hit, f"every value with `{gexpr}` is rejected (the accepting path requires the negation)", loc, key=f"guard-{gname}",
+                 detail="accepting path: " + "; ".join(f"{show(t, maxlen=80)}={v}" for t, v in pa.conds),
                  necessary_for="wrong shapes, non-integral values and foreign types are rejected")
         if cls == "Dict":
             t0 = [p.conds[0] for p in paths if p.conds]
@@ -253,7 +246,7 @@ def check(s):
     from .util import fields_initialised
     fields_initialised(s, "C14.4", [c for m_ in sorted(P.modules.values(), key=lambda m__: m__.name) if m_.name.startswith("lerax.space") for c in m_.classes.values()],
                        necessary_for="every space construction yields a space")
-    for r_, n in (("C14.1", 18), ("C14.2", 10), ("C14.3", 20), ("C14.4", 20), ("C14.5", 12), ("C14.6", 12), ("C14.7", 3), ("C14.8", 22), ("C14.9", 24)):
+    for r_, n in (("C14.1", 12), ("C14.2", 10), ("C14.3", 20), ("C14.4", 20), ("C14.5", 12), ("C14.6", 12), ("C14.7", 3), ("C14.8", 22), ("C14.9", 24)):
         s.floor(r_, n)
 
 
@@ -339,7 +332,9 @@ def check_samples(s):
     nz = Normalizer(b)
     cases = set()
     for p in live(s.paths(b, "Discrete", "sample")):
-        nomask = not any(v for t, v in p.conds)
+        nomask = entails(nz, p.conds, ("cmp", "Is", ("param", "mask"), NONE))
+        if nomask is None:
+            raise AnalysisError("Discrete.sample: a path does not decide whether a mask was given")
         cases.add(nomask)
         m = "jnp.ones((self.n,), dtype=bool)" if nomask else "jnp.asarray(mask)"
         want = s.ref(b, f"jr.choice(key, self.n, p=({m}) / jnp.sum({m}))", {"self": self_, "key": ("param", "key"), "mask": ("param", "mask")})
@@ -358,15 +353,16 @@ def check_samples(s):
         comps = [c for c in walk(p.ret) if isinstance(c, tuple) and c and c[0] == "comp"]
         ok = len(comps) == 1
         if ok:
-            c = comps[0]
-            it = c[3][0][0]
-            splits = [n_ for n_ in walk(it) if isinstance(n_, tuple) and n_ and n_[0] == "call" and n_[1] == ("global", "jax.random.split")]
-            ok = (len(splits) == 1 and splits[0][2][0] == ("param", "key")
-                  and splits[0][2][1] == ("call", ("global", "len"), (("attr", self_, "spaces"),), ())
-                  and isinstance(it, tuple) and it[0] == "call" and it[1] == ("global", "zip") and it[2][-1] == splits[0])
-            samp = [n_ for n_ in walk(c[2]) if isinstance(n_, tuple) and n_ and n_[0] == "call" and isinstance(n_[1], tuple) and n_[1][0] == "attr" and n_[1][2] == "sample"]
-            nb = len(it[2]) - 1 if ok else 0
-            ok = ok and len(samp) == 1 and dict((a, v) for a, v in samp[0][3] if a).get("key") == ("bound", c[4], nb)
+            # one iteration of the generator, bound variables replaced by what they denote: the sampling call must take, as its key, the
+            # element at the *current position* of jr.split(key, len(self.spaces)) -- however the zip is arranged and the targets are named
+            sp_, ew = pairing_terms(cls, comps[0])
+            want_split = nz.canon(s.ref(b, "jr.split(key, len(self.spaces))", {"self": self_, "key": ("param", "key")}))
+            ok = ew is not None
+            if ok:
+                elt, domains = ew
+                splits = [d_ for d_ in domains if nz.canon(d_) == want_split]
+                samp = [n_ for n_ in walk(elt) if isinstance(n_, tuple) and n_ and n_[0] == "call" and isinstance(n_[1], tuple) and n_[1][0] == "attr" and n_[1][2] == "sample"]
+                ok = len(splits) == 1 and len(samp) == 1 and dict((a, v) for a, v in samp[0][3] if a).get("key") == ("sub", splits[0], POS)
         s.ob("C14.6", f"{cls}.sample", ok, "each component is sampled with its own split of the key, zipped in component order", s.loc(cls, "sample"), key="container-sample",
              detail=show(p.ret, maxlen=300), necessary_for="nested samples are members component by component")
         if len(comps) == 1:
